@@ -58,6 +58,9 @@ func (v *Vue) evalInclude(ctx VueContext, node *html.Node, vars map[string]any, 
 		return nil, fmt.Errorf("error parsing %s (included from %s): %w", name, ctx.FormatTemplateChain(), err)
 	}
 
+	// Assign IDs to the component's v-once elements
+	assignSeenAttrs(name, compDom)
+
 	// Resolve component shorthand tags used inside the component
 	if err := v.resolveComponentTags(compDom); err != nil {
 		return nil, fmt.Errorf("error in %s (included from %s): %w", name, ctx.FormatTemplateChain(), err)
